@@ -219,7 +219,15 @@ func init() {
 		Rule: "explicit-state search over write histories on the real in-memory store (testfs): alphabet = WriteVar / WriteSignedUpdate x {db, PK, ordinary variable (quick); + KEK, dbx (thorough)} x values ordered by size {empty, 1-entry, 3-entry, 2-list database; raw 0/1/5/40/600/40000 bytes}, " +
 			"plus writes of db and of the ordinary variable through definitions carrying an extra attribute bit (APPEND_WRITE, NON_VOLATILE) read back through the stock definitions, from an empty and a pre-populated store (db as a dump has it, an ordinary variable stored with one attribute bit more than its definition); a state is the complete content of the store, reached by replay on a fresh instance, deduplicated exactly; the search runs to the depth bound or to the fixpoint. In every state every variable is read back (raw reader, typed accessor) and compared with the reference register model (value of the most recent write, descriptor removed for signed secure-boot writes; never-written => error)",
 		Assumptions: []string{"frozen clock (vtime) and memoised deterministic PKCS#1 v1.5 signatures make replays byte-identical", "register model: map variable -> last written value"},
-		Units:       func(tier string) []string { return []string{"empty-store", "prepopulated-store"} },
+		Units: func(tier string) []string {
+			u := []string{"empty-store", "prepopulated-store"}
+			// the same search (two operations deep) with the clock at other instants: signed updates carry
+			// the current time, and nothing about a date may change what is stored
+			for _, d := range c12Dates {
+				u = append(u, "empty-store@"+d)
+			}
+			return u
+		},
 		Run:         c12Run,
 		Bound: func(tier string) map[string]any {
 			return map[string]any{"operations": len(c12Ops(tier)), "depth": c12Depth(tier), "variables": len(c12Vars(tier))}
@@ -227,6 +235,12 @@ func init() {
 		Budget: dur(4*time.Minute, 30*time.Minute),
 	})
 }
+
+// c12Dates: leap days, month and year ends, the days after them, the epoch of an unset clock, the
+// 32-bit rollover, the last representable second, an instant with nanoseconds.
+var c12Dates = []string{"2024-02-29T12:00:00", "2024-03-30T01:02:03", "2024-03-31T23:59:59", "2024-03-01T00:00:00", "2023-02-28T23:59:59", "2000-02-29T00:00:00", "2100-02-28T12:00:00",
+	"2100-03-01T00:00:00", "2023-12-31T23:59:59", "2025-01-01T00:00:00", "2049-12-31T23:59:59", "2050-01-01T00:00:00", "1970-01-01T00:00:00", "2038-01-19T03:14:08", "9999-12-31T23:59:59", "2024-06-30T12:30:30.987654321",
+	"2024-04-30T10:00:00", "2024-01-31T10:00:00", "2028-02-29T10:00:00", "2026-10-01T10:00:00"}
 
 func c12Depth(tier string) int {
 	if tier == "thorough" {
@@ -242,6 +256,14 @@ func c12Run(c *hx.Ctx, tier, unit string) {
 	ops := c12Ops(tier)
 	prepop := unit == "prepopulated-store"
 	depth := c12Depth(tier)
+	if i := strings.Index(unit, "@"); i >= 0 {
+		t, err := time.Parse("2006-01-02T15:04:05.999999999", unit[i+1:])
+		if err != nil {
+			panic(err)
+		}
+		vtime.Set(t)
+		depth = 2
+	}
 
 	type node struct {
 		path  []int
